@@ -1,5 +1,274 @@
 import BoltonsVerif.C12.Proofs
 import BoltonsVerif.Generated.C12_Consts
+/-
+C12 — property theorems for the BufferedSocket / NetstringSocket model (statements, short
+derivations from `Proofs.lean`, non-vacuity examples).
+
+Vocabulary
+  script          what the network will do: chunks and socket.timeouts, then EOF
+  pending script  the bytes not yet delivered, in order
+  st.view         `rbuf ++ pending script`: every byte not yet handed to the caller
+  attempt         one call; `callRetry` / `runRetry` = the caller retrying after Timeout
+  spec op S       the answer of `op` when the whole remaining stream `S` is already there
+  consumed op r   the bytes a call removed from the stream (what it returned, plus the delimiter
+                  `recv_until(with_delimiter=False)` drops; `peek` removes nothing)
+Hypothesis `0 < cfg.recvsize` everywhere: `recvsize = 0` makes `sock.recv(0)` return b'' and is
+not a usable configuration.
+-/
 namespace C12
+
+/-- a fresh BufferedSocket over a network that will play `script` -/
+abbrev start (script : List Ev) : St := ⟨[], script⟩
+
+/-! ## 1. framing does not depend on chunking, recvsize or timeout placement -/
+
+/-- recv_until, retried after Timeout, gives the whole-stream answer and leaves the whole-stream rest -/
+theorem recv_until_chunk_independent (cfg : Cfg) (hrs : 0 < cfg.recvsize) (d : Bytes) (maxsize : Nat)
+    (withDelim : Bool) (st : St) :
+    ((callRetry cfg (.recvUntil d maxsize withDelim) st).1,
+     (callRetry cfg (.recvUntil d maxsize withDelim) st).2.view) = specUntil d maxsize withDelim st.view :=
+  callRetry_ok cfg hrs _ rfl st
+
+theorem recv_size_chunk_independent (cfg : Cfg) (hrs : 0 < cfg.recvsize) (n : Nat) (st : St) :
+    ((callRetry cfg (.recvSize n) st).1, (callRetry cfg (.recvSize n) st).2.view) = specSize n st.view :=
+  callRetry_ok cfg hrs _ rfl st
+
+theorem peek_chunk_independent (cfg : Cfg) (hrs : 0 < cfg.recvsize) (n : Nat) (st : St) :
+    ((callRetry cfg (.peek n) st).1, (callRetry cfg (.peek n) st).2.view) = specPeek n st.view :=
+  callRetry_ok cfg hrs _ rfl st
+
+theorem recv_close_chunk_independent (cfg : Cfg) (hrs : 0 < cfg.recvsize) (maxsize : Nat) (st : St) :
+    ((callRetry cfg (.recvClose maxsize) st).1, (callRetry cfg (.recvClose maxsize) st).2.view)
+      = specClose maxsize st.view :=
+  callRetry_ok cfg hrs _ rfl st
+
+/-- a whole session of recv_until / recv_size / peek / recv_close calls returns the values and raises
+    the ConnectionClosed / MessageTooLong of the whole-stream specification, and ends with the same
+    bytes still owed to the caller -/
+theorem session_eq_spec (cfg : Cfg) (hrs : 0 < cfg.recvsize) (ops : List Op)
+    (hdet : ∀ op ∈ ops, op.deterministic = true) (st : St) :
+    ((runRetry cfg ops st).1, (runRetry cfg ops st).2.view) = specRun ops st.view :=
+  runRetry_ok cfg hrs ops st hdet
+
+/-- the statement's quantifier: any two networks that deliver the same bytes — however split into
+    chunks, wherever the timeouts fall, whatever the two recvsize settings — yield the same results -/
+theorem chunk_independent (cfg₁ cfg₂ : Cfg) (h₁ : 0 < cfg₁.recvsize) (h₂ : 0 < cfg₂.recvsize)
+    (ops : List Op) (hdet : ∀ op ∈ ops, op.deterministic = true) (s₁ s₂ : List Ev)
+    (hs : pending s₁ = pending s₂) :
+    (runRetry cfg₁ ops (start s₁)).1 = (runRetry cfg₂ ops (start s₂)).1 ∧
+    (runRetry cfg₁ ops (start s₁)).2.view = (runRetry cfg₂ ops (start s₂)).2.view := by
+  have e₁ := session_eq_spec cfg₁ h₁ ops hdet (start s₁)
+  have e₂ := session_eq_spec cfg₂ h₂ ops hdet (start s₂)
+  have hv : (start s₁).view = (start s₂).view := by simp [St.view, hs]
+  rw [hv] at e₁
+  have := e₁.trans e₂.symm
+  simp only [Prod.mk.injEq] at this
+  exact this
+
+/-- … in particular the same as when the whole stream arrives at once, in a single recv -/
+theorem same_as_whole_stream_at_once (cfg : Cfg) (hrs : 0 < cfg.recvsize) (ops : List Op)
+    (hdet : ∀ op ∈ ops, op.deterministic = true) (script : List Ev) :
+    (runRetry cfg ops (start script)).1 =
+      (runRetry ⟨(pending script).length + 1, cfg.maxsize⟩ ops (start [.chunk (pending script)])).1 :=
+  (chunk_independent cfg ⟨(pending script).length + 1, cfg.maxsize⟩ hrs (Nat.succ_pos _) ops hdet script
+    [.chunk (pending script)] (by simp [pending])).1
+
+/-- the retry loop always ends with a value or ConnectionClosed / MessageTooLong: never still in
+    Timeout, never out of fuel -/
+theorem retry_terminates (cfg : Cfg) (hrs : 0 < cfg.recvsize) (op : Op) (hdet : op.deterministic = true)
+    (st : St) : (callRetry cfg op st).1 ≠ .timeout ∧ (callRetry cfg op st).1 ≠ .fuel := by
+  have h := callRetry_ok cfg hrs op hdet st
+  have h1 : (callRetry cfg op st).1 = (spec op st.view).1 := congrArg Prod.fst h
+  rw [h1]
+  exact ⟨spec_ne_timeout op hdet _, spec_ne_fuel op hdet _⟩
+
+/-! what the whole-stream specification of recv_until says (so that "equal to the spec" means
+    something): the value ends at the first occurrence of the delimiter that lies inside the first
+    `maxsize` bytes; MessageTooLong / ConnectionClosed only when there is no such occurrence -/
+
+theorem spec_until_first_occurrence (d S : Bytes) (maxsize o : Nat)
+    (h : findIdx d (S.take maxsize) = some o) :
+    (S.drop o).take d.length = d ∧ o + d.length ≤ maxsize ∧
+    ∀ i, i < o → ¬ (i + d.length ≤ maxsize ∧ (S.drop i).take d.length = d) := by
+  obtain ⟨h1, h2, h3⟩ := findIdx_take_occurrence h
+  refine ⟨h1, h2, ?_⟩
+  intro i hi ⟨hb, hm⟩
+  apply findIdx_min h i hi
+  rw [List.isPrefixOf_iff_prefix, List.prefix_iff_eq_take, List.take_drop, List.take_take]
+  have : min (i + d.length) maxsize = i + d.length := by omega
+  rw [this, ← List.take_drop]
+  exact hm.symm
+
+theorem spec_until_no_occurrence (d S : Bytes) (maxsize : Nat)
+    (h : findIdx d (S.take maxsize) = none) :
+    ∀ i, ¬ (i + d.length ≤ maxsize ∧ i + d.length ≤ S.length ∧ (S.drop i).take d.length = d) := by
+  intro i ⟨hb, hl, hm⟩
+  apply findIdx_none h i
+  rw [List.isPrefixOf_iff_prefix, List.prefix_iff_eq_take, List.take_drop, List.take_take]
+  have : min (i + d.length) maxsize = i + d.length := by omega
+  rw [this, ← List.take_drop]
+  exact hm.symm
+
+/-! ## 2. no byte lost or duplicated, also after an exception -/
+
+/-- one call, whatever it returns or raises (Timeout, ConnectionClosed, MessageTooLong included):
+    handed over ++ still buffered ++ not yet delivered = the same, before the call -/
+theorem conservation_attempt (cfg : Cfg) (hrs : 0 < cfg.recvsize) (op : Op) (st : St) :
+    consumed op (attempt cfg op st).1 ++ (attempt cfg op st).2.rbuf ++ pending (attempt cfg op st).2.script
+      = st.rbuf ++ pending st.script := by
+  have := attempt_conserves cfg hrs op st
+  simpa [St.view, List.append_assoc] using this
+
+/-- any history of calls (retried or not, in any order) from a fresh socket, at every moment:
+    bytes handed to the caller ++ rbuf ++ undelivered = the original stream, in order -/
+theorem conservation (cfg : Cfg) (hrs : 0 < cfg.recvsize) (ops : List Op) (script : List Ev) :
+    handedOver ops (runAttempts cfg ops (start script)).1
+      ++ (runAttempts cfg ops (start script)).2.rbuf
+      ++ pending (runAttempts cfg ops (start script)).2.script = pending script := by
+  have := runAttempts_conserves cfg hrs ops (start script)
+  simpa [St.view, List.append_assoc] using this
+
+/-- a call that raises (anything but a normal return) leaves every byte where the next call finds it -/
+theorem exception_keeps_stream (cfg : Cfg) (hrs : 0 < cfg.recvsize) (op : Op) (st : St)
+    (h : ∀ bs, (attempt cfg op st).1 ≠ .ok bs) : (attempt cfg op st).2.view = st.view := by
+  have := attempt_conserves cfg hrs op st
+  cases hr : (attempt cfg op st).1 with
+  | ok bs => exact absurd hr (h bs)
+  | closed => rw [hr] at this; cases op <;> simpa [consumed] using this
+  | tooLong => rw [hr] at this; cases op <;> simpa [consumed] using this
+  | timeout => rw [hr] at this; cases op <;> simpa [consumed] using this
+  | fuel => rw [hr] at this; cases op <;> simpa [consumed] using this
+
+/-- a call raises Timeout only if the socket raised one during that call -/
+theorem timeout_only_from_socket (cfg : Cfg) (op : Op) (st : St) :
+    nTO (attempt cfg op st).2.script ≤ nTO st.script ∧
+    ((attempt cfg op st).1 = .timeout → nTO (attempt cfg op st).2.script < nTO st.script) :=
+  attempt_nTO cfg op st
+
+/-! ## 3. recv -/
+
+/-- recv(size) either raises Timeout (nothing moves) or returns a prefix of the remaining stream,
+    no longer than requested, non-empty unless the stream has ended -/
+theorem recv_prefix (cfg : Cfg) (hrs : 0 < cfg.recvsize) (size : Nat) (st : St) :
+    ((recv cfg size st).1 = .timeout ∧ (recv cfg size st).2.view = st.view) ∨
+    (∃ v, (recv cfg size st).1 = .ok v ∧ v ++ (recv cfg size st).2.view = st.view ∧
+        v.length ≤ size ∧ (0 < size → v = [] → st.view = [])) := by
+  rcases recv_ok cfg hrs size st with ⟨a, b, _⟩ | ⟨v, a, b, c, d, _⟩
+  · exact Or.inl ⟨a, b⟩
+  · exact Or.inr ⟨v, a, b, c, d⟩
+
+/-! ## 4. send / sendall / buffer / flush -/
+
+/-- a fresh BufferedSocket whose underlying socket will play the send script -/
+abbrev sstart (script : List SEv) : SSt := ⟨[], [], script⟩
+
+/-- after any history of send / sendall / buffer / flush calls under arbitrary partial sends and
+    timeouts: bytes on the wire ++ send buffer = everything the caller handed over, in order -/
+theorem send_conservation (ops : List SOp) (script : List SEv) :
+    (srun ops (sstart script)).2.wire ++ (srun ops (sstart script)).2.getsendbuffer
+      = (ops.map SOp.data).flatten := by
+  have := (srun_conserves ops (sstart script)).1
+  simpa [SSt.getsendbuffer] using this
+
+/-- what is on the wire is never taken back or reordered -/
+theorem wire_only_grows (ops : List SOp) (st : SSt) : st.wire <+: (srun ops st).2.wire :=
+  (srun_conserves ops st).2
+
+/-- send() returning means everything (old buffer and the new data) is on the wire, once, in order,
+    and the return value counts exactly those bytes -/
+theorem send_return (data : Bytes) (st : SSt) (n : Nat) (h : (send data st).1 = .sent n) :
+    (send data st).2.getsendbuffer = [] ∧
+    (send data st).2.wire = st.wire ++ st.getsendbuffer ++ data ∧
+    n = st.getsendbuffer.length + data.length := by
+  obtain ⟨h1, _, _, h4, _, _⟩ := send_ok data st
+  obtain ⟨a, b⟩ := h4 n h
+  rw [a, List.append_nil] at h1
+  refine ⟨a, h1, ?_⟩
+  have := congrArg List.length h1
+  simp only [List.length_append] at this
+  omega
+
+/-- a Timeout from send() keeps the unsent bytes, in order, for flush() -/
+theorem send_timeout_keeps (data : Bytes) (st : SSt) :
+    (send data st).2.wire ++ (send data st).2.getsendbuffer = st.wire ++ st.getsendbuffer ++ data :=
+  (send_ok data st).1
+
+/-- flush() returning means the send buffer is empty -/
+theorem flush_success_empties (st : SSt) (h : (flush st).1 = .none) : (flush st).2.getsendbuffer = [] :=
+  (flush_ok st).2.2.1 h
+
+/-- however the socket misbehaves, `len(script) + 1` flush() calls get everything out: the wire then
+    holds exactly what was on it plus what was buffered -/
+theorem flush_until_done (st : SSt) :
+    (flushN (st.script.length + 1) st).getsendbuffer = [] ∧
+    (flushN (st.script.length + 1) st).wire = st.wire ++ st.getsendbuffer := by
+  have h := flushN_done (st.script.length + 1) st (Nat.lt_succ_self _)
+  have c := flushN_conserves (st.script.length + 1) st
+  rw [h, List.append_nil] at c
+  exact ⟨h, c⟩
+
+/-! ## 5. netstrings -/
+
+/-- side condition regenerated from the source: NetstringSocket's inner BufferedSocket is built with
+    defaults, so its recvsize is DEFAULT_MAXSIZE, which must be positive -/
 theorem default_recvsize_pos : 0 < Gen.DEFAULT_MAXSIZE := by decide
+
+/-- `int(str(n).encode())` is `n`: the size prefix written by write_ns is read back as the size -/
+theorem size_prefix_roundtrip (n : Nat) : parseNat (digits n) = some n := parseNat_digits n
+
+/-- write_ns puts exactly the frame `<len>:<payload>,` behind what was already accepted
+    (or nothing, raising NetstringMessageTooLong, when the payload exceeds maxsize) -/
+theorem write_ns_frames (maxsize : Nat) (p : Bytes) (st : SSt) :
+    (writeNs maxsize p st).2.wire ++ (writeNs maxsize p st).2.getsendbuffer
+      = st.wire ++ st.getsendbuffer ++ (if p.length ≤ maxsize then encodeNs p else []) ∧
+    ((writeNs maxsize p st).1 = .nsTooLong ↔ maxsize < p.length) :=
+  ⟨(writeNs_conserves maxsize p st).1, (writeNs_conserves maxsize p st).2.2⟩
+
+/-- read_ns over any chunking of a stream that starts with the frames of `ps` returns exactly `ps`
+    (any payload bytes, `:` `,` and digits included), leaving what follows the frames -/
+theorem netstring_roundtrip (cfg : Cfg) (hrs : 0 < cfg.recvsize) (maxsize : Nat) (ps : List Bytes)
+    (rest : Bytes) (script : List Ev) (hto : nTO script = 0)
+    (hs : pending script = (ps.map encodeNs).flatten ++ rest) (hall : ∀ p ∈ ps, p.length ≤ maxsize) :
+    (readNsMany cfg maxsize ps.length (start script)).1 = ps.map NsRes.ok ∧
+    (readNsMany cfg maxsize ps.length (start script)).2.view = rest :=
+  readNsMany_frames cfg hrs maxsize ps rest (start script) hto (by simpa [St.view] using hs) hall
+
+/-- the same for the configuration NetstringSocket really uses -/
+theorem netstring_roundtrip_default (maxsize : Nat) (ps : List Bytes) (script : List Ev)
+    (hto : nTO script = 0) (hs : pending script = (ps.map encodeNs).flatten)
+    (hall : ∀ p ∈ ps, p.length ≤ maxsize) :
+    (readNsMany ⟨Gen.DEFAULT_MAXSIZE, Gen.DEFAULT_MAXSIZE⟩ maxsize ps.length (start script)).1
+      = ps.map NsRes.ok :=
+  (netstring_roundtrip ⟨Gen.DEFAULT_MAXSIZE, Gen.DEFAULT_MAXSIZE⟩ default_recvsize_pos maxsize ps []
+    script hto (by simpa using hs) hall).1
+
+/-! ## non-vacuity -/
+
+-- "ab\r\ncd\r\n" delivered as  "ab\r" | timeout | "\ncd" | "\r" | timeout | "\n"  with recvsize 2:
+-- the delimiter straddles chunk edges twice and a timeout falls inside it
+def exScript : List Ev :=
+  [.chunk [97, 98, 13], .timeout, .chunk [10, 99, 100], .chunk [13], .timeout, .chunk [10]]
+
+example : pending exScript = [97, 98, 13, 10, 99, 100, 13, 10] := by decide
+example : nTO exScript = 2 := by decide
+example : (runRetry ⟨2, 100⟩ [.recvUntil [13, 10] 100 false, .peek 1, .recvUntil [13, 10] 100 true,
+            .recvClose 5] (start exScript)).1
+    = [.ok [97, 98], .ok [99], .ok [99, 100, 13, 10], .ok []] := by decide
+-- a single attempt does time out with partial data kept
+example : (attempt ⟨2, 100⟩ (.recvUntil [13, 10] 100 false) (start exScript)).1 = .timeout ∧
+    (attempt ⟨2, 100⟩ (.recvUntil [13, 10] 100 false) (start exScript)).2.rbuf = [97, 98, 13] := by decide
+-- MessageTooLong and ConnectionClosed are reachable results of the specification
+example : (specUntil [13, 10] 3 false [97, 98, 13, 10]).1 = .tooLong := by decide
+example : (specUntil [13, 10] 9 false [97, 98, 13]).1 = .closed := by decide
+example : (specUntil [13, 10] 4 false [97, 98, 13, 10, 99]) = (.ok [97, 98], [99]) := by decide
+-- partial sends and a timeout
+example : ((srun [.send [1, 2, 3], .buffer [4], .flush] (sstart [.accept 2, .timeout, .accept 1])).1.map
+    (·.1)) = [.timeout, .none, .none] := by decide
+example : (srun [.send [1, 2, 3], .buffer [4], .flush] (sstart [.accept 2, .timeout, .accept 1])).2.wire
+    = [1, 2, 3, 4] := by decide
+-- a netstring whose payload contains ':' ',' and digits, read one byte at a time
+example : encodeNs [58, 44, 49] = [51, 58, 58, 44, 49, 44] := by decide
+example : (readNsMany ⟨4, 4⟩ 10 2 (start ((encodeNs [58, 44, 49] ++ encodeNs []).map (fun b => Ev.chunk [b])))).1
+    = [.ok [58, 44, 49], .ok []] := by decide
+
 end C12
